@@ -65,8 +65,8 @@ vnacal_t *_vnacal_alloc(const char *function,
 	vnacal_free(vcp);
 	return NULL;
     }
-    vcp->vc_fprecision = VNACAL_DEFAULT_DATA_PRECISION;
-    vcp->vc_dprecision = VNACAL_DEFAULT_FREQUENCY_PRECISION;
+    vcp->vc_fprecision = VNACAL_DEFAULT_FREQUENCY_PRECISION;
+    vcp->vc_dprecision = VNACAL_DEFAULT_DATA_PRECISION;
 
     return vcp;
 }
